@@ -264,8 +264,26 @@ def fast_dtype(ctx, tk):
         what = "the fast broadcast returns an array of the requested dtype (the typed builder, accumulated in place)"
         if np_call(base, {"zeros", "empty", "full"}) and "dtype" in dict(base.a[2]):
             ctx.holds("C12.h", f, what, node=r.ast, engine="E6")
-        elif tm.k == "call" and any(y.k == "attr" and y.a[1] == "accumulate" for y in alts(tm.a[0])) and "out" not in dict(tm.a[2]) and "dtype" not in dict(tm.a[2]):
+        elif tm.k == "call" and _is_accumulate(ctx, tk, fa, tm.a[0]) and "out" not in dict(tm.a[2]) and "dtype" not in dict(tm.a[2]):
             ctx.violated("C12.h", f, what, "`%s` returns a new accumulate result: for 8/16/32-bit data add.accumulate widens to the platform integer, so the result no "
                          "longer has the requested dtype" % (tm,), node=r.ast, engine="KB")
         else:
             ctx.unknown("C12.h", f, what, node=r.ast, engine="E6")
+
+
+def _is_accumulate(ctx, tk, fa, fn):
+    """callee is ufunc.accumulate, directly or as the value returned by a repo helper"""
+    for a in alts(fn):
+        if a.k == "attr" and a.a[1] == "accumulate":
+            continue
+        if a.k == "call":
+            ok = False
+            for g in tk.R.resolve_call(a, fa) or []:
+                ga = ctx.fa(g)
+                rets = [ga.term(r.ast.value, r) for r in ga.cfg.returns() if r.ast.value is not None]
+                if rets and all(all(y.k == "attr" and y.a[1] == "accumulate" for y in alts(t)) for t in rets):
+                    ok = True
+            if ok:
+                continue
+        return False
+    return True
